@@ -162,8 +162,10 @@ class XslGen:
         if r < 0.48:
             nm = [{"lit": True, "s": cps(self.r.choice(["e", "f"]))}] if self.r.random() < 0.6 else [{"lit": True, "s": cps("n")}, {"lit": False, "e": fn("count", P(ch(T_NODE)))}]
             return {"i": "element", "name": nm, "body": self.body(scope, d - 1, in_elem=True)}
-        if r < 0.54:
+        if r < 0.51:
             return {"i": "if", "test": self.expr(scope, "any"), "body": self.body(scope, d - 1, allow_attr=False)}
+        if r < 0.54:
+            return {"i": "extfb", "body": self.body(scope, d - 1, allow_attr=False)}
         if r < 0.6:
             whens = [{"test": self.expr(scope, "any"), "body": self.body(scope, d - 1, allow_attr=False)} for _ in range(self.r.choice([1, 2]))]
             return {"i": "choose", "whens": whens, "otherwise": self.body(scope, d - 1, allow_attr=False) if self.r.random() < 0.6 else []}
@@ -299,8 +301,10 @@ def scoping_stylesheet(rng):
         return {"i": "apply-templates", "hasSel": True, "sel": P_(ch(rng.choice([T_ANY, t_name("b"), T_NODE]))), "mode": "c", "sorts": [], "params": with_params()}
     def wrap(body):
         r = rng.random()
-        if r < 0.2:
+        if r < 0.12:
             return [{"i": "if", "test": fn("true"), "body": body}]
+        if r < 0.24:
+            return [{"i": "extfb", "body": body}]          # the fallback of an extension element nobody implements: a scope like any other
         if r < 0.35:
             return [{"i": "choose", "whens": [{"test": fn("false"), "body": []}, {"test": num(1), "body": body}], "otherwise": []}]
         if r < 0.5:
@@ -778,6 +782,8 @@ def r_instr(x):
         return '<xsl:processing-instruction name="%s">%s</xsl:processing-instruction>' % (s(x["name"]), r_body(x["body"]))
     if i == "if":
         return "<xsl:if test=%s>%s</xsl:if>" % (quoteattr(xpgen.render(x["test"])), r_body(x["body"]))
+    if i == "extfb":
+        return "<xfb:nonesuch><xsl:fallback>%s</xsl:fallback></xfb:nonesuch>" % r_body(x["body"])
     if i == "choose":
         o = "<xsl:choose>" + "".join("<xsl:when test=%s>%s</xsl:when>" % (quoteattr(xpgen.render(w["test"])), r_body(w["body"])) for w in x["whens"])
         if x["otherwise"]:
@@ -835,8 +841,12 @@ def render_modules(ss):
     """{file name: text}: main.xsl is the principal module (id 1); module k > 1 is m<k>.xsl"""
     mods = ss.get("mods") or [{"id": 1, "imports": []}]
     out = {}
+    import json as _json
+    # an element of a namespace that is designated as an extension namespace and that no processor implements: its xsl:fallback children
+    # are instantiated (XSLT 15)
+    HDR = XSLNS + (' xmlns:xfb="urn:c01:no-such-extension" extension-element-prefixes="xfb"' if '"i": "extfb"' in _json.dumps(ss) else "")
     for m in mods:
-        lines = ['<xsl:stylesheet version="1.0" %s>' % XSLNS]
+        lines = ['<xsl:stylesheet version="1.0" %s>' % HDR]
         for im in m["imports"]:
             lines.append('<xsl:import href="%s"/>' % module_file(im))
         if m["id"] == 1:
@@ -865,7 +875,7 @@ def render_modules(ss):
                 fname = "inc%d.xsl" % k
                 if prev_inc != k:
                     lines.append('<xsl:include href="%s"/>' % fname)
-                    out[fname] = '<xsl:stylesheet version="1.0" %s>\n' % XSLNS
+                    out[fname] = '<xsl:stylesheet version="1.0" %s>\n' % HDR
                 out[fname] += r_template(t) + "\n"
                 prev_inc = k
         lines.append("</xsl:stylesheet>")
